@@ -42,7 +42,11 @@ def run(ctx):
     corrs = []
     if K.build_hx(ctx) and K.build_drv(ctx):
         args = ["%s=%s" % (k, facts.get(k, "unknown")) for k in DRV_FACTS]
-        c = K.correspondence(ctx, "C01", args)
+        try:
+            c = K.correspondence(ctx, "C01", args, timeout=900)
+        except Exception as e:  # e.g. the real reader hangs on what a mutated writer produced
+            c = K.Corr()
+            c.err = "harness did not finish: %r" % (e,)
         corrs.append(("C01", args, c))
     else:
         ctx.violation("harness does not build against the repository", {"correspondence": "C01", "log": getattr(ctx, "hx_log", "")[-2000:]},
@@ -81,7 +85,8 @@ def run(ctx):
         rule=("histories = 7 corpus cases (three-session demo, empty key, 65536/70000-byte keys, 65535-byte key with 200 kB payload, "
               "65537 entries in one 1 MiB block, metadata/unknown ops) + random cases: block size 0/1..65536/1 MiB, names 0..300 bytes "
               "incl. binary, key pool with lengths 0..70000 incl. binary, payloads 0..200 kB (2 MiB thorough), insert/update/delete mix, "
-              "random flush/sync/close/reopen, load at random points, raw file bytes parsed by the Lean reader; a case is non-trivial "
+              "random flush/sync/close/reopen, load at random points, raw file bytes parsed by the Lean reader; 40 chronicler cases "
+              "(Write of treasures incl. a 70000-byte and an empty key, deletes, Close, Load by a fresh chronicler); a case is non-trivial "
               "with >= 3 ops; distinct = distinct op texts"),
         samples=samples, evaluations=len(c.ops), distinct_nontrivial=K.distinct_cases(c),
         extra_cov={"correspondence": {"domain": "C01", "cases": len(c.cases), "op_lines": len(c.ops), "mismatching_lines": len(c.mismatch),
